@@ -93,10 +93,41 @@ func newBuild(shape int, A, B, C []byte) (*hlib.Build, bool) {
 	case 23: // symlink ln becomes a regular file
 		n.Links = nil
 		n.Files = append(n.Files, hlib.File{Path: "ln", Data: clone(B)})
+	// old build variant with a symlink to a directory (cur -> sub); see oldBuild
+	case 24: // symlink-to-directory becomes a real directory holding a copy of C; sub kept
+		n.Files = append(n.Files, hlib.File{Path: "cur/C", Data: clone(C)})
+	case 25: // symlink-to-directory becomes a real directory, C moves into it, sub disappears
+		n.Files[2].Path = "cur/C"
+	case 26: // symlink-to-directory becomes a real, empty directory
+		n.Dirs = append(n.Dirs, "cur")
+	// non-empty directory changes kind
+	case 27: // directory sub becomes a file, its content deleted
+		n.Files[2] = hlib.File{Path: "sub", Data: rt.Bytes("fresh", 2)}
+	case 28: // directory sub becomes a file, its content moved elsewhere
+		n.Files[2].Path = "C2"
+		n.Files = append(n.Files, hlib.File{Path: "sub", Data: rt.Bytes("fresh", 2)})
+	case 29: // directory sub becomes a symlink, its content deleted
+		n.Files = n.Files[:2]
+		n.Links = append(n.Links, hlib.Link{Path: "sub", Dest: "dd"})
+	case 30: // directory sub becomes a symlink, its content moved elsewhere
+		n.Files[2].Path = "C2"
+		n.Links = append(n.Links, hlib.Link{Path: "sub", Dest: "dd"})
+	case 31: // directory sub becomes a symlink to the renamed directory holding its content
+		n.Files[2].Path = "sub2/C"
+		n.Links = append(n.Links, hlib.Link{Path: "sub", Dest: "sub2"})
 	default:
 		return nil, false
 	}
 	return n, true
+}
+
+// oldBuild is the fixed old build; shapes 24..26 add a symlink to a directory.
+func oldBuild(shape int, A, B, C []byte) *hlib.Build {
+	old := &hlib.Build{Files: []hlib.File{{Path: "A", Data: A}, {Path: "B", Data: B}, {Path: "sub/C", Data: C}}, Dirs: []string{"dd"}, Links: []hlib.Link{{Path: "ln", Dest: "A"}}}
+	if shape >= 24 && shape <= 26 {
+		old.Links = append(old.Links, hlib.Link{Path: "cur", Dest: "sub"})
+	}
+	return old
 }
 
 // H_inplace. Params: a, b, c (old file lengths), shape, orders (1 = explore every
@@ -108,7 +139,7 @@ func H_inplace() {
 	if shape >= 20 {
 		rt.Tag("class", "kind-swap")
 	}
-	old := &hlib.Build{Files: []hlib.File{{Path: "A", Data: A}, {Path: "B", Data: B}, {Path: "sub/C", Data: C}}, Dirs: []string{"dd"}, Links: []hlib.Link{{Path: "ln", Dest: "A"}}}
+	old := oldBuild(shape, A, B, C)
 	neu, ok := newBuild(shape, A, B, C)
 	if !ok {
 		rt.Reach("end")
